@@ -1,0 +1,21 @@
+/*
+ * Verification hooks (off unless the library is built with -DZSTD_VERIF_TRACE).
+ * Each hook is one macro call placed after a state change, still under the lock
+ * that protects the state it reports. With the guard off the macro expands to nothing.
+ */
+#ifndef ZSTD_VERIF_H
+#define ZSTD_VERIF_H
+
+#ifdef ZSTD_VERIF_TRACE
+typedef void (*ZSTD_verif_hook_f)(const char* ev, const void* ctx,
+                                  long long a, long long b, long long c,
+                                  long long d, long long e, long long f);
+/* installed by the verification harness; NULL => hooks do nothing */
+extern ZSTD_verif_hook_f ZSTD_verif_hook;
+#  define ZSTD_VERIF_EV(ev, ctx, a, b, c, d, e, f) \
+      do { if (ZSTD_verif_hook) ZSTD_verif_hook((ev), (const void*)(ctx), (long long)(a), (long long)(b), (long long)(c), (long long)(d), (long long)(e), (long long)(f)); } while (0)
+#else
+#  define ZSTD_VERIF_EV(ev, ctx, a, b, c, d, e, f) do { } while (0)
+#endif
+
+#endif /* ZSTD_VERIF_H */
